@@ -19,6 +19,7 @@ mod numop;
 mod imports;
 mod gccmd;
 mod interncmd;
+mod lazycmd;
 mod util;
 
 type Handler = fn(&Value) -> Value;
@@ -93,6 +94,7 @@ fn main() {
 		"loc" => run_lines(c17cmd::loc),
 		"textall" => run_lines(c17cmd::textall),
 		"errjs" => run_lines(c17cmd::errjs),
+		"lazy" => run_lines(lazycmd::handle),
 		"version" => println!("jrharness 1"),
 		_ => {
 			eprintln!("usage: jrharness <eval|...>");
